@@ -276,7 +276,9 @@ def insertions_case():
 def linen_insertion_independence(case, ctx):
   case, extra, pos, kind, fix = case
   case = L.normalize_case(dict(case, shared=[]))
-  prog = no_dense(case['prog'])
+  # 'reuse i' addresses children by position, so inserting a sibling would
+  # change which child it calls: not an *unrelated* insertion
+  prog = L.strip(no_dense(case['prog']), ('reuse',))
   # give every sub an explicit, unique name so siblings can be permuted
   def name_all(p, pre):
     ops = []
